@@ -228,15 +228,25 @@ theorem fine_edges_are_shared_faces (g : GridShape) (h : Rat) (envs : List Int) 
 theorem cell_index_formula (g : GridShape) (x y z : Nat) (hx : x < g.w) (hy : y < g.h) (hz : z < g.d) :
     gci g x y z = ((x + y * g.w + z * g.w * g.h : Nat) : Int) := gci_inside g x y z hx hy hz
 
-/- NOT PROVED for all inputs (statement kept in full; checked on every generated identity-map case by the correspondence
-   and the oracle, on the real engines by the harness, and on the concrete instance below by kernel evaluation):
-   * `identity_map` : on a reflecting grid, `coarsegrainGrid g h … (identity map)` has the nodes of `gridToGraph g h envs`
-     (volumes `h³` in the grid's units, same environments) and the same edge list with surface `h²` and distance² `h²`.
-   What is missing: that the fine edges have pairwise distinct ordered keys (so the merge branch of the edge loop is never
-   taken) and that the centroid of a singleton group is the cell's own position (indexing of the coordinate list by the linear
-   index).  The general theorems above already give, for the identity map: same edge *set* (`cg_edge_iff` with singleton
-   groups), surface = (number of fine edges between the two cells)·h² (`cg_surface`), volumes (`cg_volume`), environments
-   (`cg_env`), states and flags (`cg_group_amount`, `cg_chem_any`). -/
+/-- `identity_map`: on a reflecting grid the identity index map is accepted and gives the graph of the grid itself — the same
+nodes (volume `h³`, here expressed in the grid's units system, same environments) and the same edge list, in the same order,
+with surface `h²` and squared distance `h²` (`gridToGraph` records the distance `h`).  Together with C15 (a grid equals its
+graph) this gives identical deterministic trajectories and identical stochastic trajectories for equal draws. -/
+theorem identity_map (g : GridShape) (h : Rat) (uv ug : Sys) (envs : List Int)
+    (hrefl : (g.px || g.py || g.pz) = false) (hpos : 0 < g.size) (hlen : envs.length = g.size) (henv : ∀ e ∈ envs, e ≠ -2) :
+    ∃ sp, coarsegrainGrid g h uv ug envs (idMap g.size) = .ok sp ∧
+      sp.vols = (gridToGraph g h envs).vols.map (· * convFactor uv ug Dim.volume) ∧
+      sp.envs = (gridToGraph g h envs).envs ∧
+      sp.edges.map (fun e => (e.i, e.j, e.surface, e.dist)) =
+        (gridToGraph g h envs).edges.map (fun e => (e.i, e.j, e.surface, e.dist * e.dist)) :=
+  identity_map_aux g h uv ug envs hrefl hpos hlen henv
+
+/-- with the identity map the state and the chemostat flags are unchanged entry by entry (`cg_group_amount`, `cg_chem_any`
+with singleton groups); stated here for the state -/
+theorem identity_state {g : GridShape} {h : Rat} {uv ug : Sys} {envs : List Int} {ns : Nat} {state : List Rat} {chem : List Int}
+    {c : CgSystem} (hpos : 0 < g.size) (hok : coarsegrainSystem g h uv ug envs ns state chem (idMap g.size) = .ok c)
+    (s k : Nat) (hs : s < ns) (hk : k < g.size) :
+    c.state[s * g.size + k]? = some (state.getD (s * g.size + k) 0) := identity_state_aux hpos hok s k hs hk
 
 /-! ## concrete instances (kernel evaluation of the model): every clause of the property on a 4×1×1 and a 2×2×1 grid -/
 
